@@ -283,7 +283,8 @@ class FStringNode:
 
 def _close_fstring_if_necessary(fstring_stack, string, line_nr, column, additional_prefix):
     for fstring_stack_index, node in enumerate(fstring_stack):
-        lstripped_string = string.lstrip()
+        # Only the tokenizer's own whitespace may end up in a prefix.
+        lstripped_string = string.lstrip(' \f\t')
         len_lstrip = len(string) - len(lstripped_string)
         if lstripped_string.startswith(node.quote):
             token = PythonToken(
